@@ -407,9 +407,10 @@ pub struct Area {
     pub exec: fn(&[&str]) -> (String, String),
 }
 
-/// CPU seconds (of the worker thread, not wall clock: the verdict must not depend on how loaded the
-/// machine is) after which a single case counts as a hang of the implementation, and the wall-clock
-/// backstop for a case that blocks without using the CPU.
+/// USER-mode CPU seconds (of the worker thread, not wall clock and not system time: the verdict must
+/// not depend on how loaded or how short of memory the machine is) after which a single case counts
+/// as a hang of the implementation; ten times as much user + system time, and a wall-clock backstop
+/// for a case that blocks without using the CPU, end a case as well.
 pub const CASE_TIMEOUT_S: u64 = 60;
 pub const CASE_WALL_TIMEOUT_S: u64 = 1800;
 
@@ -441,6 +442,30 @@ fn thread_cpu_ms(tid: usize) -> Option<u64> {
     Some(ts.tv_sec as u64 * 1000 + ts.tv_nsec as u64 / 1_000_000)
 }
 
+extern "C" {
+    fn syscall(num: i64, ...) -> i64;
+}
+
+/// kernel thread id of the calling thread (x86-64 / aarch64 Linux)
+pub fn kernel_tid() -> u64 {
+    #[cfg(target_arch = "x86_64")]
+    const SYS_GETTID: i64 = 186;
+    #[cfg(target_arch = "aarch64")]
+    const SYS_GETTID: i64 = 178;
+    unsafe { syscall(SYS_GETTID) as u64 }
+}
+
+/// USER-mode CPU time (milliseconds) of the thread with kernel id `ktid`, from /proc.  A hang of the
+/// implementation is a loop in user code; page-fault and memory-reclaim work that the kernel charges
+/// to a thread when the machine is short of memory is system time and must not count as a hang.
+fn thread_user_ms(ktid: u64) -> Option<u64> {
+    let stat = std::fs::read_to_string(format!("/proc/self/task/{ktid}/stat")).ok()?;
+    let rest = &stat[stat.rfind(')')? + 1..];
+    let f: Vec<&str> = rest.split_whitespace().collect();
+    let utime: u64 = f.get(11)?.parse().ok()?;
+    Some(utime * 10) // clock ticks of 10 ms (USER_HZ = 100 on Linux)
+}
+
 static POOL_READY: std::sync::atomic::AtomicBool = std::sync::atomic::AtomicBool::new(false);
 
 pub fn run_cases(area: &Area, cmds: &[String], dir: &str, dist: &Dist) {
@@ -459,11 +484,11 @@ pub fn run_cases(area: &Area, cmds: &[String], dir: &str, dist: &Dist) {
     let exec = area.exec;
     let now = || std::time::SystemTime::now().duration_since(std::time::UNIX_EPOCH).unwrap().as_secs();
     // per worker: (case index + 1, start time, pthread id, thread CPU ms at the start of the case); 0 = idle/finished
-    let slots: Arc<Mutex<Vec<Arc<(AtomicUsize, AtomicU64, AtomicUsize, AtomicU64)>>>> = Arc::new(Mutex::new(Vec::new()));
+    let slots: Arc<Mutex<Vec<Arc<(AtomicUsize, AtomicU64, AtomicUsize, AtomicU64, AtomicU64, AtomicU64)>>>> = Arc::new(Mutex::new(Vec::new()));
     let spawn_worker = {
         let (cmds, results, next, done, slots) = (cmds.clone(), results.clone(), next.clone(), done.clone(), slots.clone());
         move || {
-            let slot = Arc::new((AtomicUsize::new(0), AtomicU64::new(0), AtomicUsize::new(0), AtomicU64::new(0)));
+            let slot = Arc::new((AtomicUsize::new(0), AtomicU64::new(0), AtomicUsize::new(0), AtomicU64::new(0), AtomicU64::new(0), AtomicU64::new(0)));
             slots.lock().unwrap().push(slot.clone());
             let (cmds, results, next, done) = (cmds.clone(), results.clone(), next.clone(), done.clone());
             std::thread::Builder::new().name("lzv-pool".into()).stack_size(64 << 20).spawn(move || loop {
@@ -481,6 +506,9 @@ pub fn run_cases(area: &Area, cmds: &[String], dir: &str, dist: &Dist) {
                 let tid = unsafe { pthread_self() };
                 slot.2.store(tid, Ordering::SeqCst);
                 slot.3.store(thread_cpu_ms(tid).unwrap_or(0), Ordering::SeqCst);
+                let ktid = kernel_tid();
+                slot.4.store(ktid, Ordering::SeqCst);
+                slot.5.store(thread_user_ms(ktid).unwrap_or(0), Ordering::SeqCst);
                 slot.1.store(now(), Ordering::SeqCst);
                 slot.0.store(i + 1, Ordering::SeqCst);
                 let parts: Vec<&str> = cmds[i].split(' ').collect();
@@ -524,7 +552,10 @@ pub fn run_cases(area: &Area, cmds: &[String], dir: &str, dist: &Dist) {
             if c == 0 {
                 return None;
             }
-            let cpu = thread_cpu_ms(s.2.load(Ordering::SeqCst)).unwrap_or(0).saturating_sub(s.3.load(Ordering::SeqCst));
+            // user-mode time decides (60 s); user + system time only as a backstop ten times as large
+            let total = thread_cpu_ms(s.2.load(Ordering::SeqCst)).unwrap_or(0).saturating_sub(s.3.load(Ordering::SeqCst));
+            let user = thread_user_ms(s.4.load(Ordering::SeqCst)).unwrap_or(total).saturating_sub(s.5.load(Ordering::SeqCst));
+            let cpu = user.max(total / 10);
             // the slot may have moved on to another case in between: then it is re-examined next round
             let frozen = crate::areas::a_memusage::is_frozen(s.2.load(Ordering::SeqCst));
             if s.0.load(Ordering::SeqCst) == c && (frozen || cpu > CASE_TIMEOUT_S * 1000 || t.saturating_sub(s.1.load(Ordering::SeqCst)) > CASE_WALL_TIMEOUT_S) {
@@ -540,7 +571,7 @@ pub fn run_cases(area: &Area, cmds: &[String], dir: &str, dist: &Dist) {
                 *g = Some(if frozen {
                     ("RUNAWAY".to_string(), "FAIL the call allocates without bound (more than 8 GiB live; the thread was frozen)".to_string())
                 } else {
-                    ("TIMEOUT".to_string(), format!("FAIL the call did not return within {CASE_TIMEOUT_S} s of CPU time (hang)"))
+                    ("TIMEOUT".to_string(), format!("FAIL the call did not return within {CASE_TIMEOUT_S} s of user CPU time (hang)"))
                 });
                 done.fetch_add(1, Ordering::SeqCst);
                 drop(g);
